@@ -123,7 +123,15 @@ func main() {
 			if _, err := os.Stat(target); err == nil {
 				fatal("export file would shadow a repository file: " + rel)
 			}
-			overlay[target] = p
+			// export files are written against the plain APIs and instrumented like repository files
+			if b, changed := rewriteFile(p, filepath.ToSlash(rel)); changed {
+				dst := filepath.Join(*out, "export", rel)
+				check(os.MkdirAll(filepath.Dir(dst), 0o755))
+				check(os.WriteFile(dst, b, 0o644))
+				overlay[target] = dst
+			} else {
+				overlay[target] = p
+			}
 			nExport++
 			return nil
 		})
